@@ -38,10 +38,6 @@ def tables(ctx, r):
 
 def symptom(rec):
     """A coarse, input-independent name of what went wrong (part of the violation record)."""
-    if rec.get("encErr"):
-        return "encode-error"
-    if rec.get("decErr"):
-        return "decode-error"
     if rec.get("before") != rec.get("after"):
         if rec.get("type") in ("conf.StringSize", "*conf.StringSize"):
             try:
@@ -79,7 +75,7 @@ def run(ctx):
     o1 = ctx.path("fields.ndjson")
     o2 = o1 + ".whole"
     # one go test invocation (one link of the test binary) for both recorders
-    vf.gotest_ok(ctx, PKG, "^TestVerif_C08_(Fields|Whole)$", cases=cf, out=o1, params={"RUNS": ctx.pick(12, 150)})
+    vf.gotest_ok(ctx, PKG, "^TestVerif_C08_(Fields|Whole)$", cases=cf, out=o1, params={"RUNS": ctx.pick(12, 300)})
     recs = vf.read_ndjson(o1) + vf.read_ndjson(o2)
     for x in recs:
         if x["rec"] == "notable":
@@ -98,28 +94,41 @@ def run(ctx):
         decoded_diff = {(x["scope"], x["field"]) for x in items if x["stage"] == "decoded"}
         # a parameter that already differs after decoding also differs after applying: report it once
         items = [x for x in items if x["stage"] == "decoded" or (x["scope"], x["field"]) not in decoded_diff]
-        if rec["encErr"] or rec["decErr"]:
-            items.append({"stage": "decoded", "scope": placed["scope"], "field": placed["field"], "type": rec.get("type", ""),
-                          "before": "", "after": "", "encErr": rec["encErr"], "decErr": rec["decErr"]})
+        for stage_err, sym in ((rec["encErr"], "encode-error"), (rec["decErr"], "decode-error")):
+            for part in [x for x in stage_err.split("; ") if x]:
+                where, _, msg = part.partition(": ")
+                items.append({"stage": "decoded", "scope": where, "field": "", "type": "", "before": "", "after": "",
+                              "error": msg, "symptom": sym})
         if not items:
             raise vf.Infra("TLC rejected record %d but the harness listed no difference: %s" % (bad["l"], str(rec)[:500]))
         for it in items:
-            sym = "value-changed-by-apply" if it["stage"] == "applied" else symptom(it)
-            scope = re.sub(r":.*", "", it["scope"])
+            sym = it.get("symptom") or ("value-changed-by-apply" if it["stage"] == "applied" else symptom(it))
+            scope = re.sub(r"[: ].*", "", it["scope"])
             vrec = {"scope": scope, "field": it["field"], "type": it["type"], "symptom": sym, "via": rec["via"],
-                    "placed": placed, "before": it["before"], "after": it["after"]}
+                    "placed": placed, "before": it["before"], "after": it["after"], "error": it.get("error", "")}
             # one report per parameter and value, whatever else the configuration held
-            key = (scope, it["field"], sym, it["before"], it["after"], it.get("encErr"), it.get("decErr"))
+            key = (scope, it["field"], sym, it["before"], it["after"], it.get("error"))
             if key in seen:
                 continue
             seen.add(key)
-            ctx.violation(vrec, "writing back what was read changes %s parameter '%s' (%s) [%s]: before=%s after=%s%s%s%s; configuration: %s" % (
-                scope, it["field"], it["type"], sym, it["before"], it["after"],
-                (" encErr=" + it["encErr"]) if it.get("encErr") else "",
-                (" decErr=" + it["decErr"]) if it.get("decErr") else "",
-                (" rendered as " + it["rendered"]) if it.get("rendered") else "",
-                ("defaults with %(scope)s.%(field)s = %(member)s" % placed) if rec["via"] == "field"
-                else "random valid configuration %s (seed %s)" % (rec["member"], ctx.seed)))
+            conf_txt = (("defaults with %(scope)s.%(field)s = %(member)s" % placed) if rec["via"] == "field"
+                        else "random valid configuration %s (seed %s)" % (rec["member"], ctx.seed))
+            if it.get("error"):
+                ctx.violation(vrec, "what GET returns for %s cannot be %s [%s]: %s; configuration: %s" % (
+                    it["scope"], "decoded by the API" if sym == "decode-error" else "encoded", sym, it["error"], conf_txt))
+            else:
+                ctx.violation(vrec, "writing back what was read changes %s parameter '%s' (%s) [%s]: before=%s after=%s%s; configuration: %s" % (
+                    scope, it["field"], it["type"], sym, it["before"], it["after"],
+                    (" rendered as " + it["rendered"]) if it.get("rendered") else "", conf_txt))
+    if ctx.thorough:
+        # self-test: a clean record with one corrupted field must be rejected by TLC
+        clean = next(x for x in rts if x["valid"] and x["applied"] and x["before"] == x["after"] == x["afterApplied"])
+        vf.write_ndjson(d + "/C08_trace.ndjson", [clean, dict(clean, after="corrupted"), dict(clean, afterApplied="corrupted"),
+                                                  dict(clean, decErr="corrupted")])
+        st = vf.tlc(ctx, "TraceConfStore", "TraceConfStore_c08.cfg", workers=1, timeout=300)
+        if sorted(b["l"] for b in st.tagged("BAD")) != [2, 3, 4]:
+            raise vf.Infra("self-test: corrupted trace records were not rejected: %s" % st.tagged("BAD"))
+        ctx.set("selftest_corrupted_trace_rejected", True)
     s = summ[0]
     valid = len([x for x in rts if x["valid"]])
     rejected_back = len([x for x in rts if x["valid"] and x.get("applyErr")])
